@@ -136,7 +136,7 @@ namespace hist
         }
         void set_unwind_mode(unsigned m) override
         {
-            mode_ = m % 3;
+            mode_ = m % 6;
         }
         int marker_cmp(int i, int j) override
         {
@@ -153,13 +153,54 @@ namespace hist
     private:
         void do_unwind(marker m)
         {
-            if (mode_ == 0)
-                this->cur().unwind(m);
-            else
+            using unwinder = fm::memory_stack_raii_unwind<T>;
+            T& st = this->cur();
+            switch (mode_)
             {
-                fm::memory_stack_raii_unwind<T> u(this->cur(), m);
-                if (mode_ == 2)
-                    u.unwind(); // the destructor then unwinds to the same place again (a no-op)
+            case 0:
+                st.unwind(m);
+                break;
+            case 1:
+            {
+                unwinder u(st, m);
+                break;
+            }
+            case 2:
+            {
+                unwinder u(st, m);
+                u.unwind(); // the destructor then unwinds to the same place again (a no-op)
+                break;
+            }
+            case 3:
+            {
+                unwinder u1(st, m);
+                unwinder u2(std::move(u1));
+                if (u1.will_unwind() || !u2.will_unwind() || !(u2.get_marker() == m) || &u2.get_stack() != &st)
+                    this->complaint_ = "move construction of memory_stack_raii_unwind did not transfer the location";
+                break;
+            }
+            case 4:
+            {
+                auto t0 = st.top();
+                {
+                    unwinder u(st, m);
+                    u.release();
+                    if (u.will_unwind())
+                        this->complaint_ = "will_unwind() is true after release()";
+                }
+                if (!(st.top() == t0))
+                    this->complaint_ = "a released memory_stack_raii_unwind unwound the stack";
+                st.unwind(m);
+                break;
+            }
+            default:
+            {
+                unwinder u2(st); // saves the current top: unwinding to it changes nothing
+                unwinder u1(st, m);
+                u2 = std::move(u1);
+                if (u1.will_unwind() || !u2.will_unwind() || !(u2.get_marker() == m))
+                    this->complaint_ = "move assignment of memory_stack_raii_unwind did not transfer the location";
+            }
             }
         }
         unsigned            mode_ = 0;
